@@ -1,9 +1,7 @@
 (* Spec/C03Rel.v -- the vocabulary in which the C03 theorems are stated: when a documented namespace
-   (Model.Builder contents) agrees with a namespace CPython built (Spec.PyBind env), and the syntactic guard
-   that excludes the one class of programs on which pydoctor itself departs from the property
-   (a class variable shadowing an inherited method, known finding C03-inherited-method-shadowed). *)
+   (Model.Builder contents) agrees with a namespace CPython built (Spec.PyBind env). *)
 From Coq Require Import ZArith NArith List Bool.
-From PydoctorVerif Require Import Base.Sexp Model.MiniPy Model.Builder Spec.PyBind.
+From PydoctorVerif Require Import Base.Sexp Model.MiniPy Model.Infer Model.Builder Spec.PyBind.
 Import ListNotations.
 
 Definition pscope_of (sc : scope) : pscope := match sc with ScModule => PModule | ScClass => PClass end.
@@ -11,6 +9,10 @@ Definition pscope_of (sc : scope) : pscope := match sc with ScModule => PModule 
 (* n is bound to a definition (not an auxiliary import / loop-variable binding) *)
 Definition pdef (n : name) (e : env) : bool :=
   match plookup n e with Some v => negb (is_aux v) | None => false end.
+
+(* a documented name is a definition Python binds there, or one of the instance variables *)
+Definition iv_ok (ivs : list name) (c : contents_t) (e : env) : Prop :=
+  forall n o, lookup n c = Some o -> pdef n e = true \/ In n ivs.
 
 Definition is_ivar_obj (o : obj) : bool := match o with OAttr KInstanceVar _ _ _ => true | _ => false end.
 
@@ -23,6 +25,13 @@ Definition fkind_of (sc : scope) (w : wrap) : option fkind :=
   | ScClass, WClassM => Some KClassMethod
   | _, _ => None
   end.
+
+(* pydoctor's summary of the members a class has or inherits (own first, then the bases depth first: the order
+   Class.find searches) against the namespaces Python's attribute lookup searches: where pydoctor finds a function or
+   class first, so does Python; where pydoctor finds nothing, neither does Python *)
+Definition mem_rel (l : list (name * summary)) (envs : list env) : Prop :=
+  (forall n, lookup n l = Some SNonAttr -> pfirst n envs = Some false) /\
+  (forall n, lookup n l = None -> pfirst n envs = None).
 
 Section Rel.
   Variable clean : text -> text.         (* inspect.cleandoc *)
@@ -41,10 +50,14 @@ Section Rel.
   | AgFun : forall sc k a d w d',
       fkind_of sc w = Some k -> d = option_map clean d' -> agree_obj sc (OFun k a d) (VFun a w d')
   | AgProp : forall d an va a d', d = option_map clean d' -> agree_obj ScClass (OAttr KProperty d an va) (VFun a WProp d')
-  | AgClass : forall sc x d c oo ih x' d' ns,
+  | AgClass : forall sc x d c oo ih x' d' ns mro ivs,
       d = option_map clean d' -> agree_ns ScClass c ns ->
-      (sc = ScModule -> x = x') ->        (* EXCEPTION iff issubclass(cls, BaseException): for classes bound at module level *)
-      agree_obj sc (OClass x d c oo ih) (VClass x' d' ns)
+      x = x' ->                            (* EXCEPTION iff issubclass(cls, BaseException) *)
+      mem_rel ih mro ->                    (* the inherited members pydoctor's Class.find sees are the ones Python inherits *)
+      iv_ok ivs c ns ->                    (* what is documented beyond Python's bindings are instance variables ... *)
+      (forall n, In n ivs -> lookup n ih <> Some SNonAttr -> lookup n c <> None) ->   (* ... and all of them are documented,
+                                              unless the name is an inherited method/class (_maybeAttribute) *)
+      agree_obj sc (OClass x d c oo ih) (VClass x' d' ns mro ivs)
   | AgData : forall sc k d an va v, k <> KProperty -> (vals = true -> val_rel k va v) -> agree_obj sc (OAttr k d an va) (VData v)
   with agree_ns : scope -> contents_t -> env -> Prop :=
   | AgNs : forall sc c e,
@@ -55,75 +68,12 @@ Section Rel.
       agree_ns sc c e.
 End Rel.
 
-(* ---- the guard of the _partial theorems ------------------------------------------------------------- *)
-(* every name a def or class statement binds, anywhere in the program *)
-Fixpoint def_names (x : stmt) : list name :=
-  match x with
-  | Def nm _ _ body => nm :: flat_map def_names body
-  | Class nm _ body => nm :: flat_map def_names body
-  | If _ b o => flat_map def_names b ++ flat_map def_names o
-  | Try b h o f => flat_map def_names b ++ flat_map def_names h ++ flat_map def_names o ++ flat_map def_names f
-  | With b => flat_map def_names b
-  | For _ b o => flat_map def_names b ++ flat_map def_names o
-  | While b o => flat_map def_names b ++ flat_map def_names o
-  | _ => []
-  end.
-
-(* the names a suite assigns at its own level (not inside nested def / class bodies; the old-style wrapping of a
-   method does not count: it re-binds the method) *)
-Definition target_names (t : target) : list name :=
-  match t with TName n => [n] | TTuple ns => ns | TSelf _ => [] end.
-
-(* the old-style decoration `x = staticmethod(x)` / `x = classmethod(x)` *)
-Definition is_wrapping (ts : list target) (r : rhs) : bool :=
-  match r with
-  | RCall f [a] =>
-      match ts with
-      | [TName n] => text_eqb n a && (text_eqb f p_staticmethod || text_eqb f p_classmethod)
-      | _ => false
-      end
-  | _ => false
-  end.
-
-Fixpoint assigned_names (x : stmt) : list name :=
-  match x with
-  | Assign ts r => if is_wrapping ts r then [] else flat_map target_names ts
-  | AnnAssign t _ _ => target_names t
-  | AugAssign t _ => target_names t
-  | If _ b o => flat_map assigned_names b ++ flat_map assigned_names o
-  | Try b h o f => flat_map assigned_names b ++ flat_map assigned_names h ++ flat_map assigned_names o ++ flat_map assigned_names f
-  | With b => flat_map assigned_names b
-  | For _ b o => flat_map assigned_names b ++ flat_map assigned_names o
-  | While b o => flat_map assigned_names b ++ flat_map assigned_names o
-  | _ => []
-  end.
-
-(* no_inherited_shadow DN x: every class statement in x that has base classes assigns, in its own body, no name
-   that some def/class statement of the program (DN) binds -- so a class variable cannot shadow an inherited method *)
-Fixpoint no_inherited_shadow (DN : list name) (x : stmt) : bool :=
-  match x with
-  | Def _ _ _ body => forallb (no_inherited_shadow DN) body
-  | Class _ bases body =>
-      (match bases with [] => true | _ => forallb (fun n => negb (mem n DN)) (flat_map assigned_names body) end)
-      && forallb (no_inherited_shadow DN) body
-  | If _ b o => forallb (no_inherited_shadow DN) b && forallb (no_inherited_shadow DN) o
-  | Try b h o f => forallb (no_inherited_shadow DN) b && forallb (no_inherited_shadow DN) h
-                   && forallb (no_inherited_shadow DN) o && forallb (no_inherited_shadow DN) f
-  | With b => forallb (no_inherited_shadow DN) b
-  | For _ b o => forallb (no_inherited_shadow DN) b && forallb (no_inherited_shadow DN) o
-  | While b o => forallb (no_inherited_shadow DN) b && forallb (no_inherited_shadow DN) o
-  | _ => true
-  end.
-
-Definition shadow_guard (prog : list stmt) : bool :=
-  forallb (no_inherited_shadow (flat_map def_names prog)) prog.
-
 (* ---- the namespaces of a module: the module itself and, recursively, every class that is documented under the
    name Python binds it to ------------------------------------------------------------------------------- *)
 Inductive ns_at (c : contents_t) (e : env) : scope -> contents_t -> env -> Prop :=
 | ns_root : ns_at c e ScModule c e
-| ns_class : forall sc c1 e1 n x d c2 oo ih x' d' e2,
-    ns_at c e sc c1 e1 -> lookup n c1 = Some (OClass x d c2 oo ih) -> plookup n e1 = Some (VClass x' d' e2) ->
+| ns_class : forall sc c1 e1 n x d c2 oo ih x' d' e2 mro ivs,
+    ns_at c e sc c1 e1 -> lookup n c1 = Some (OClass x d c2 oo ih) -> plookup n e1 = Some (VClass x' d' e2 mro ivs) ->
     ns_at c e ScClass c2 e2.
 
 (* the kind pydoctor gives to an entry against what `inspect` says about the object Python bound *)
@@ -131,7 +81,7 @@ Definition kind_ok (sc : scope) (o : obj) (v : pyval) : Prop :=
   match o, v with
   | OFun k a _, VFun a' w _ => a = a' /\ fkind_of sc w = Some k       (* function/method/classmethod/staticmethod, coroutine *)
   | OAttr KProperty _ _ _, VFun _ WProp _ => sc = ScClass              (* property *)
-  | OClass x _ _ _ _, VClass x' _ _ => sc = ScModule -> x = x'         (* a class; at module level: EXCEPTION iff exception class *)
+  | OClass x _ _ _ _, VClass x' _ _ _ _ => x = x'                        (* a class; EXCEPTION iff subclass of BaseException *)
   | OAttr k _ _ _, VData _ => k <> KProperty                           (* a variable of some kind *)
   | _, _ => False
   end.
@@ -140,7 +90,7 @@ Definition kind_ok (sc : scope) (o : obj) (v : pyval) : Prop :=
 Definition doc_ok (clean : text -> text) (o : obj) (v : pyval) : Prop :=
   match o, v with
   | OFun _ _ d, VFun _ _ d' => d = option_map clean d'
-  | OClass _ d _ _ _, VClass _ d' _ => d = option_map clean d'
+  | OClass _ d _ _ _, VClass _ d' _ _ _ => d = option_map clean d'
   | OAttr KProperty d _ _, VFun _ WProp d' => d = option_map clean d'      (* a property: the getter's docstring *)
   | _, _ => True
   end.
